@@ -1859,7 +1859,7 @@ class Ctx:
             # is out of reach, but a non-zero polynomial is non-zero at generic points: hand it to the replay / witness search as a
             # candidate without solver model (reported only if a concrete input reproduces; otherwise the run is inconclusive)
             size = _formula_size(neg)
-            if size > self.engine.big_terms and _only_disequalities(neg):
+            if size > self.engine.big_terms and _only_disequalities(neg) and not self._has_open_ite(neg):
                 st.add("big", "candidate")
                 return ("cex", None)
         can_split = depth > 0 and self._pick_split_atom(neg) is not None
@@ -1902,6 +1902,29 @@ class Ctx:
                 return rr
             unknown = True
         return "unknown" if unknown else "holds"
+
+    def _has_open_ite(self, f):
+        """does an if-then-else atom with undetermined condition occur in formula f? (then a case split may still reduce it to zero)"""
+        occ = set()
+
+        def walk(g):
+            if g.kind == "rel":
+                for m in g.a:
+                    for i, e in enumerate(m):
+                        if e:
+                            occ.add(i)
+            elif g.kind in ("and", "or"):
+                for h in g.a:
+                    walk(h)
+            elif g.kind == "not":
+                walk(g.a)
+
+        walk(f)
+        for g_ in occ:
+            if g_ < len(self.vinfo) and self.vinfo[g_]["kind"] == "ite" and g_ not in self.elim:
+                if self.simplify(self.vinfo[g_]["c"], False).kind != "const":
+                    return True
+        return False
 
     def _pick_split_atom(self, neg):
         cands = [g for g, info in enumerate(self.vinfo) if info["kind"] == "ite" and g not in self.elim]
